@@ -373,6 +373,16 @@ class Driver:
             self.m.stop_countdown = n
         self._do(['stop_at', n], go, lambda _: 'ok')
 
+    def expire(self):
+        """what the end of any search that exceeded its limit does, through the public API: start_query_timer(), the timer
+        thread fires (really, natively), cancel_timer()"""
+        def go():
+            t = self.m.call('time_out::start_query_timer', [1])
+            if self.m.timer is not None: self.m.timer['fired'] = True
+            self.m.call('time_out::stop_query', [])
+            self.m.call('time_out::cancel_timer', [t])
+        self._do(['expire'], go, lambda _: 'ok')
+
     def evalf(self, name, args, ss):
         if ss.h is None:
             self._do(['evalf', name, [a.reg for a in args], ss.reg], lambda: None, lambda _: 'skip'); return None
